@@ -50,15 +50,24 @@ impl Clone for Thread {
     fn clone(&self) -> Self {
         // Cloning a handle reads the memory it lives in: recorded (with the
         // address) so that the frame-liveness audit can see late accesses.
+        // Ask the monitor before reading anything out of `self`: the memory
+        // may belong to a frame that is already gone.
+        if let Some((s, me)) = sim::ctx() {
+            s.pre_touch(me, self as *const Self as usize);
+        }
         if let (Some((epoch, target)), Some((s, me))) = (self.sim, sim::ctx()) {
             if s.epoch == epoch {
                 let addr = self as *const Self as usize;
-                s.pre_touch(me, addr);
+                // The real read of `self` happens at the event, before the
+                // scheduling point that follows it.
+                let mut real = None;
                 s.op(me, |st| {
+                    real = Some(self.real.clone());
                     st.tick(me);
                     st.log(me, Ev::HandleClone { addr, target });
                     Step::Done(())
                 });
+                return Self { real: real.unwrap(), sim: self.sim };
             }
         }
         Self { real: self.real.clone(), sim: self.sim }
